@@ -160,12 +160,15 @@ def mkInst (d : Dict) (p : PInst) : Inst :=
 def mkIA (iv : InvDecl) (owner : Nat) : InvAttr :=
   { key := iv.key, aggr := iv.aggr, over := iv.over, attrName := iv.attrName, attrOwner := owner }
 
-/-- inverse attribute `iv` of instance `x` (keyword `k`), on dictionary + population; `crash` when `iv` has no slot; empty when
-    `InitIAttrs` left the inverse attribute without its inverted attribute -/
+/-- inverse attribute `iv` of instance `x` (keyword `k`), on dictionary + population; `crash` when `iv` has no slot (`lazyRefs::invAttr`
+    aborts).  An inverse attribute without its inverted attribute: in the source shape (`initIAttrsPerInverse`) `initIAttr` `abort()`s
+    during schema initialisation when it finds the attribute neither in the inverted entity nor in a supertype — `crash`, unreachable
+    for well-formed dictionaries (`C11_inverted_attr_resolved`); in the other shape (the loop left early: seed C11-d2) the siblings keep
+    a null `_inverted_attr`, `attrIndex( referrer, 0 )` is -1 for every candidate and the inverse stays empty -/
 def resolveD (d : Dict) (pop : List PInst) (x k : Nat) (iv : InvDecl) : Outcome (List Nat) :=
   if !(slots d k).contains iv then .crash
   else match linkedOwner d k iv with
     | some o => resolve fromSource (pop.map (mkInst d)) x (mkIA iv o)
-    | none => .ok []      -- null `_inverted_attr`: `attrIndex( referrer, 0 )` is -1 for every candidate
+    | none => if initIAttrsPerInverse then .crash else .ok []
 
 end StepModel.LazyRefs
